@@ -18,7 +18,8 @@ import (
 // ---- bridged clients: C21 (safety) and C23 (progress) ----
 
 type bop struct {
-	// Op: send, recv, cancel, cut, drop, pause
+	// Op: send, recv, cancel, cut, halfcut, drop, pause, reref (P's application releases its reference to the partner
+	// and takes a new one, while nothing is in flight in either direction)
 	Op string `json:"op"`
 	P  int    `json:"p"`
 	// drop: message kind lost on the relay->P direction
@@ -32,11 +33,20 @@ type bCase struct {
 }
 
 func genBridge(t *rapid.T, withDrop bool) bCase {
-	ops := []string{"send", "send", "send", "recv", "recv", "cancel", "cut", "halfcut", "pause"}
+	ops := []string{"send", "send", "send", "recv", "recv", "cancel", "cut", "halfcut", "pause", "reref"}
 	if withDrop {
 		ops = append(ops, "drop")
 	}
 	c := bCase{AutoRecv: rapid.Bool().Draw(t, "autorecv")}
+	if rapid.IntRange(0, 3).Draw(t, "renew") == 0 {
+		// a sender whose message got through renews its reference (its message numbering starts over) and sends again
+		p := rapid.IntRange(0, 1).Draw(t, "rp")
+		k := rapid.IntRange(1, 2).Draw(t, "rk")
+		for i := 0; i < k; i++ {
+			c.Ops = append(c.Ops, bop{Op: "send", P: p}, bop{Op: "recv", P: 1 - p})
+		}
+		c.Ops = append(c.Ops, bop{Op: "reref", P: p}, bop{Op: "send", P: p}, bop{Op: "recv", P: 1 - p})
+	}
 	n := rapid.IntRange(3, 14).Draw(t, "n")
 	for i := 0; i < n; i++ {
 		o := bop{Op: rapid.SampledFrom(ops).Draw(t, "op"), P: rapid.IntRange(0, 1).Draw(t, "p")}
@@ -90,6 +100,29 @@ type brig struct {
 	recvReq [2]chan struct{}
 	auto    bool
 	nsend   int
+	// recvCtx / recvCancel: the context of p's current Recv calls (cancelled when p renews its reference)
+	recvCtx    [2]context.Context
+	recvCancel [2]context.CancelFunc
+}
+
+// reref makes p's application release its reference to the partner and take a new one.
+func (g *brig) reref(p int) {
+	g.mu.Lock()
+	old, oldCancel := g.ref[p], g.recvCancel[p]
+	g.mu.Unlock()
+	oldCancel()
+	old.Release()
+	nref := g.cl[p].AddPeerRef(gen.PeerID(1 - p).String())
+	rctx, rcancel := context.WithCancel(g.ctx)
+	g.mu.Lock()
+	g.ref[p], g.recvCtx[p], g.recvCancel[p] = nref, rctx, rcancel
+	g.mu.Unlock()
+}
+
+func (g *brig) curRef(p int) (*signaling_rpc_client.ClientPeerRef, context.Context) {
+	g.mu.Lock()
+	defer g.mu.Unlock()
+	return g.ref[p], g.recvCtx[p]
 }
 
 func newBrig(auto bool) (*brig, error) {
@@ -104,6 +137,7 @@ func newBrig(auto bool) (*brig, error) {
 		cl.SetContext(ctx)
 		g.cl[p] = cl
 		g.ref[p] = cl.AddPeerRef(gen.PeerID(1 - p).String())
+		g.recvCtx[p], g.recvCancel[p] = context.WithCancel(ctx)
 		g.recvReq[p] = make(chan struct{}, 64)
 		go g.appLoop(p)
 	}
@@ -121,9 +155,14 @@ func (g *brig) appLoop(p int) {
 			}
 		}
 		callAt := tick()
-		m, err := g.ref[p].Recv(g.ctx)
+		ref, rctx := g.curRef(p)
+		m, err := ref.Recv(rctx)
 		if err != nil {
-			return
+			if g.ctx.Err() != nil {
+				return
+			}
+			// the reference was renewed: go on with the new one
+			continue
 		}
 		g.mu.Lock()
 		g.recvs[p] = append(g.recvs[p], recvRec{callAt: callAt, at: tick(), payload: string(m.GetSignedMsg().GetData()), msg: m})
@@ -159,7 +198,8 @@ func (g *brig) send(p int) *sendRec {
 	sctx, cancel := context.WithCancel(g.ctx)
 	sr.cancel = cancel
 	go func() {
-		_, err := g.ref[p].Send(sctx, []byte(sr.payload))
+		ref, _ := g.curRef(p)
+		_, err := ref.Send(sctx, []byte(sr.payload))
 		sr.mu.Lock()
 		sr.done, sr.err, sr.doneAt = true, err, tick()
 		sr.mu.Unlock()
@@ -190,7 +230,8 @@ func (g *brig) close() {
 	g.cancel()
 	g.b.stopAll()
 	for p := 0; p < 2; p++ {
-		g.ref[p].Release()
+		ref, _ := g.curRef(p)
+		ref.Release()
 		g.cl[p].ClearContext()
 	}
 }
@@ -213,7 +254,7 @@ func (g *brig) run(ops []bop, classes map[string]bool) []string {
 	for _, op := range ops {
 		switch op.Op {
 		case "send":
-			// at most 4 messages per direction
+			// at most 6 messages per direction
 			g.mu.Lock()
 			n := 0
 			for _, s := range g.sends {
@@ -222,7 +263,7 @@ func (g *brig) run(ops []bop, classes map[string]bool) []string {
 				}
 			}
 			g.mu.Unlock()
-			if n >= 4 {
+			if n >= 6 {
 				continue
 			}
 			g.send(op.P)
@@ -249,6 +290,12 @@ func (g *brig) run(ops []bop, classes map[string]bool) []string {
 				classes["client-side-stream-failure-while-send-in-flight"] = true
 			}
 			g.b.halfcut(op.P)
+		case "reref":
+			if inflight() {
+				continue
+			}
+			g.reref(op.P)
+			classes["reference-renewed"] = true
 		case "drop":
 			g.b.dropNext(op.P, op.Kind, 1)
 			classes["dropping-relay"] = true
